@@ -347,6 +347,18 @@ let run_sched toks =
     (if g then "guarded" else "unguarded") ^ " " ^ String.concat "/" (Stdlib.List.init n per)
   | _ -> failwith "sched args"
 
+(* ---- C09: merged split file ------------------------------------------------ *)
+let run_merger toks =
+  match toks with
+  | segs :: ops ->
+    let segl = if segs = "-" then [] else Stdlib.List.map (fun h -> bytes_of_hex ("h:" ^ h)) (String.split_on_char ',' segs) in
+    let op s = match String.split_on_char ',' s with
+      | ["r"; n] -> Merger.MRead (z_of_hex n) | ["s"; o; w] -> Merger.MSeek (z_of_hex o, z_of_hex w) | ["t"] -> Merger.MTell | _ -> failwith "mop" in
+    let res = Merger.m_run segl { Merger.m_fake = Z0; Merger.m_idx = O } (Stdlib.List.map op ops) in
+    String.concat " " (Stdlib.List.map (function
+      | Merger.RBytes b -> hex_of_bytes b | Merger.RInt z -> "i:" ^ hex_of_z z | Merger.RErr e -> "e:" ^ err_name e) res)
+  | _ -> failwith "merger args"
+
 let dispatch (line : string) : string =
   match String.split_on_char ' ' (String.trim line) with
   | "engine" :: toks -> run_engine toks
@@ -366,6 +378,7 @@ let dispatch (line : string) : string =
   | "nandhdr" :: toks -> run_nandhdr toks
   | "lzss" :: toks -> run_lzss toks
   | "sched" :: toks -> run_sched toks
+  | "merger" :: toks -> run_merger toks
   | "nandinfer" :: toks -> run_nandinfer toks
   | e :: _ -> failwith ("unknown entry " ^ e)
   | [] -> ""
